@@ -5,6 +5,7 @@ import (
 	"go/ast"
 	"go/token"
 	"go/types"
+	"sort"
 	"strings"
 
 	"golang.org/x/tools/go/ssa"
@@ -20,7 +21,7 @@ func runC15(c *Ctx) {
 	L.Rule("mask-window", "every store into a row buffer in Mask uses a column index i with start <= i, i <= start+length-1 and 0 <= i <= L-1 on every path")
 	L.Rule("start-domain", "Mask accepts exactly 0 <= start <= L")
 	L.Rule("alphabet-wildcard", "an alphabet-specific constant is used only where the controlling alphabet comparisons select its own alphabet")
-	L.Rule("replacement-dispatch", "in the if-chain on the replacement mode, \"GAP\" assigns the GAP constant, a one-byte string assigns that byte, \"AMBIG\"/\"\" selects by alphabet (erroring on any other alphabet) and any other string returns an error")
+	L.Rule("replacement-dispatch", "decision table of the dispatch on the replacement mode, read off the path classes over the comparisons of the mode (any statement form): \"GAP\" reaches only the GAP constant, \"AMBIG\" and \"\" reach the two alphabet wildcards or an error, \"MAJ\" a constant placeholder, a one-byte string that is no keyword reaches only mode[0], any other string only an error")
 	L.Rule("stored-value", "the value stored into a row buffer is the replacement variable")
 	L.Rule("protection-test", "the gap/reference protection comparisons read the same row and column that is written, under their own flags")
 	L.Rule("reference-excluded", "in MaskOccurences the occurrence counters are incremented only on a path where the row's name differs from the reference name (when a reference is given)")
@@ -45,7 +46,7 @@ func runC15(c *Ctx) {
 		c.checkStoredValue(r)
 		c.checkColumnTables(r)
 	}
-	L.Floor("replacement-dispatch", 8, "4 arms in each of 2 functions")
+	L.Floor("replacement-dispatch", 12, "6 input classes in each of 2 functions")
 	L.Floor("stored-value", 2, "one row store per function")
 	c.checkMaskProtection(mask)
 	c.checkReferenceExcluded(occ)
@@ -137,135 +138,393 @@ func (c *Ctx) checkMaskWindow(r *fnRef) {
 
 // checkReplacementDispatch works on the syntax of the if-chain that compares
 // the mode string with literals.
+// checkReplacementDispatch reads the dispatch on the replacement mode as a decision table. The
+// atoms are the comparisons of the mode parameter with string constants and of its length with
+// integer constants; every path class to an outcome (a value merged into the replacement variable,
+// or an error return inside the dispatch) is a conjunction of atom outcomes. Every possible mode
+// string is equivalent, for all atoms in the code, to one representative: a literal the code
+// compares with, a one-byte string that is no literal, or a longer string that is no literal. The
+// outcomes reachable for each representative are compared with the documented table. The statement
+// form (if-chain, switch, nested switch, guard clauses) does not matter.
 func (c *Ctx) checkReplacementDispatch(r *fnRef) {
 	if !r.ok() {
 		return
 	}
 	L := c.L
-	fd := c.P.Decl(r.F)
-	pk := c.P.Pkg("align")
-	if fd == nil || pk == nil {
-		L.Unknown("replacement-dispatch", r.label, "syntax", "-", "declaration not found")
-		return
+	fn := r.F
+	// the mode parameter: the string parameter compared with "GAP"
+	type atom struct {
+		kind string // "eq" (mode == lit) or "len" (len(mode) OP k)
+		lit  string
+		op   token.Token
+		k    int64
 	}
-	info := pk.TypesInfo
-	var modeObj types.Object
-	for _, f := range fd.Type.Params.List {
-		for _, n := range f.Names {
-			if n.Name == "maskreplace" {
-				modeObj = info.Defs[n]
-			}
+	atoms := map[ssa.Value]atom{}
+	var P *ssa.Parameter
+	isLenOf := func(v ssa.Value, p *ssa.Parameter) bool {
+		call, ok := v.(*ssa.Call)
+		return ok && builtinName(call.Common()) == "len" && call.Common().Args[0] == ssa.Value(p)
+	}
+	for _, p := range fn.Params {
+		if b, ok := p.Type().Underlying().(*types.Basic); !ok || b.Kind() != types.String {
+			continue
 		}
-	}
-	if modeObj == nil {
-		L.Unknown("replacement-dispatch", r.label, "mode parameter", c.P.Pos(fd.Pos()), "parameter maskreplace not found")
-		return
-	}
-	// find the first if statement of the body whose condition compares the mode with a string literal
-	var chain *ast.IfStmt
-	for _, s := range fd.Body.List {
-		if ifs, ok := s.(*ast.IfStmt); ok && len(modeLits(info, ifs.Cond, modeObj)) > 0 {
-			chain = ifs
-			break
-		}
-	}
-	if chain == nil {
-		L.Unknown("replacement-dispatch", r.label, "if-chain on the mode", c.P.Pos(fd.Pos()), "not found")
-		return
-	}
-	seen := map[string]bool{}
-	var finalElse *ast.BlockStmt
-	for cur := chain; cur != nil; {
-		lits := modeLits(info, cur.Cond, modeObj)
-		pos := c.P.Pos(cur.Pos())
-		switch {
-		case len(lits) > 0:
-			for _, l := range lits {
-				seen[l] = true
-			}
-			switch {
-			case contains(lits, "GAP"):
-				okGap := false
-				ast.Inspect(cur.Body, func(n ast.Node) bool {
-					if a, ok := n.(*ast.AssignStmt); ok && len(a.Rhs) == 1 {
-						if id, ok := stripParensConv(a.Rhs[0]).(*ast.Ident); ok {
-							if o, ok := info.Uses[id].(*types.Const); ok && o.Name() == "GAP" {
-								okGap = true
-							}
-						}
-					}
-					return true
-				})
-				L.Check(okGap, "replacement-dispatch", r.label, `mode "GAP"`, pos, "assigns the GAP constant", `the "GAP" arm does not assign the GAP constant`)
-			case contains(lits, "AMBIG") || contains(lits, ""):
-				// nested alphabet selection must end in an error arm
-				hasErr := false
-				ast.Inspect(cur.Body, func(n ast.Node) bool {
-					if rs, ok := n.(*ast.ReturnStmt); ok {
-						_ = rs
-						hasErr = true
-					}
-					return true
-				})
-				both := contains(lits, "AMBIG") && contains(lits, "")
-				L.Check(hasErr && both, "replacement-dispatch", r.label, `mode "AMBIG"/""`, pos, "selects by alphabet and returns an error for any other alphabet",
-					fmt.Sprintf("AMBIG arm: literals %v, error return for unknown alphabet: %v", lits, hasErr))
-			case contains(lits, "MAJ"):
-				L.OK("replacement-dispatch", r.label, `mode "MAJ"`, pos, "placeholder, replaced per column by the most frequent character")
-			default:
-				L.Unknown("replacement-dispatch", r.label, fmt.Sprintf("mode %v", lits), pos, "unknown mode literal")
-			}
-		default:
-			// len(maskreplace) == 1  →  rep = maskreplace[0]
-			isLen1 := false
-			if be, ok := cur.Cond.(*ast.BinaryExpr); ok && be.Op == token.EQL {
-				if ce, ok := be.X.(*ast.CallExpr); ok && len(ce.Args) == 1 {
-					if fid, ok := ce.Fun.(*ast.Ident); ok && fid.Name == "len" {
-						if aid, ok := ce.Args[0].(*ast.Ident); ok && info.Uses[aid] == modeObj {
-							if bl, ok := be.Y.(*ast.BasicLit); ok && bl.Value == "1" {
-								isLen1 = true
-							}
-						}
-					}
+		found := false
+		allInstrs(fn, func(in ssa.Instruction) {
+			if bo, ok := in.(*ssa.BinOp); ok && bo.Op == token.EQL && bo.X == ssa.Value(p) {
+				if s, ok := cStr(constOf(bo.Y)); ok && s == "GAP" {
+					found = true
 				}
 			}
-			okIdx := false
-			ast.Inspect(cur.Body, func(n ast.Node) bool {
-				if ie, ok := n.(*ast.IndexExpr); ok {
-					if aid, ok := ie.X.(*ast.Ident); ok && info.Uses[aid] == modeObj {
-						if bl, ok := ie.Index.(*ast.BasicLit); ok && bl.Value == "0" {
-							okIdx = true
-						}
-					}
-				}
-				return true
-			})
-			L.Check(isLen1 && okIdx, "replacement-dispatch", r.label, "single-character mode", pos, "len(mode) == 1 assigns mode[0]",
-				"the arm after the named modes is not `len(mode) == 1 → mode[0]`: "+types.ExprString(cur.Cond))
-		}
-		switch e := cur.Else.(type) {
-		case *ast.IfStmt:
-			cur = e
-		case *ast.BlockStmt:
-			finalElse = e
-			cur = nil
-		default:
-			cur = nil
-		}
-	}
-	errArm := false
-	if finalElse != nil {
-		ast.Inspect(finalElse, func(n ast.Node) bool {
-			if _, ok := n.(*ast.ReturnStmt); ok {
-				errArm = true
-			}
-			return true
 		})
+		if found {
+			P = p
+		}
 	}
-	L.Check(errArm, "replacement-dispatch", r.label, "unknown mode", c.P.Pos(chain.Pos()), "the final else returns an error", "no final else returning an error: an unknown replacement mode is accepted silently")
-	for _, want := range []string{"GAP", "MAJ", "AMBIG"} {
-		if !seen[want] {
-			L.Bad("replacement-dispatch", r.label, `mode "`+want+`"`, c.P.Pos(chain.Pos()), "documented mode has no arm")
+	if P == nil {
+		L.Unknown("replacement-dispatch", r.label, "mode parameter", c.P.Pos(fn.Pos()), "no string parameter is compared with \"GAP\"")
+		return
+	}
+	lits := map[string]bool{}
+	allInstrs(fn, func(in ssa.Instruction) {
+		bo, ok := in.(*ssa.BinOp)
+		if !ok {
+			return
+		}
+		x, y := bo.X, bo.Y
+		if y == ssa.Value(P) || isLenOf(y, P) {
+			x, y = y, x
+		}
+		switch {
+		case x == ssa.Value(P) && (bo.Op == token.EQL || bo.Op == token.NEQ):
+			if s, ok := cStr(constOf(y)); ok {
+				atoms[bo] = atom{kind: "eq", lit: s, op: bo.Op}
+				lits[s] = true
+			}
+		case isLenOf(x, P):
+			if k, ok := constInt(y); ok {
+				op := bo.Op
+				if x != bo.X { // constant on the left: mirror
+					switch op {
+					case token.LSS:
+						op = token.GTR
+					case token.LEQ:
+						op = token.GEQ
+					case token.GTR:
+						op = token.LSS
+					case token.GEQ:
+						op = token.LEQ
+					}
+				}
+				atoms[bo] = atom{kind: "len", op: op, k: k}
+			}
+		}
+	})
+	evalAtom := func(a atom, m string) bool {
+		if a.kind == "eq" {
+			return (m == a.lit) == (a.op == token.EQL)
+		}
+		n := int64(len(m))
+		switch a.op {
+		case token.EQL:
+			return n == a.k
+		case token.NEQ:
+			return n != a.k
+		case token.LSS:
+			return n < a.k
+		case token.LEQ:
+			return n <= a.k
+		case token.GTR:
+			return n > a.k
+		case token.GEQ:
+			return n >= a.k
+		}
+		return true
+	}
+	// the replacement variable: the uint8 φ that merges mode[0]
+	isModeByte := func(v ssa.Value) bool {
+		var x, idx ssa.Value
+		switch lk := stripConv(v).(type) {
+		case *ssa.Index:
+			x, idx = lk.X, lk.Index
+		case *ssa.Lookup:
+			x, idx = lk.X, lk.Index
+		default:
+			return false
+		}
+		if x != ssa.Value(P) {
+			return false
+		}
+		k, isK := constInt(idx)
+		return isK && k == 0
+	}
+	type leaf struct {
+		v    ssa.Value
+		pred *ssa.BasicBlock // block the value arrives from
+		to   *ssa.BasicBlock
+	}
+	var flatten func(p *ssa.Phi, seen map[*ssa.Phi]bool) []leaf
+	flatten = func(p *ssa.Phi, seen map[*ssa.Phi]bool) []leaf {
+		if seen[p] {
+			return nil
+		}
+		seen[p] = true
+		var out []leaf
+		for i, e := range p.Edges {
+			if q, ok := e.(*ssa.Phi); ok {
+				out = append(out, flatten(q, seen)...)
+				continue
+			}
+			out = append(out, leaf{e, p.Block().Preds[i], p.Block()})
+		}
+		return out
+	}
+	var rep *ssa.Phi
+	var leaves []leaf
+	allInstrs(fn, func(in ssa.Instruction) {
+		p, ok := in.(*ssa.Phi)
+		if !ok {
+			return
+		}
+		if b, ok := p.Type().Underlying().(*types.Basic); !ok || b.Kind() != types.Uint8 {
+			return
+		}
+		ls := flatten(p, map[*ssa.Phi]bool{})
+		has := false
+		for _, l := range ls {
+			if isModeByte(l.v) {
+				has = true
+			}
+		}
+		if has && len(ls) > len(leaves) && innermostLoopOf(naturalLoops(fn), p.Block()) == nil {
+			rep, leaves = p, ls
+		}
+	})
+	if rep == nil {
+		L.Unknown("replacement-dispatch", r.label, "replacement variable", c.P.Pos(fn.Pos()), "no byte variable merges mode[0] with the other replacement characters")
+		return
+	}
+	// path classes (sets of atom outcomes) from the entry to the end of a block
+	type alt = string // sorted "name=T;name=F"
+	memo := map[*ssa.BasicBlock]map[alt]bool{}
+	onStack := map[*ssa.BasicBlock]bool{}
+	var altsAt func(b *ssa.BasicBlock) map[alt]bool
+	join := func(a alt, k string) alt {
+		if a == "" {
+			return k
+		}
+		parts := strings.Split(a, ";")
+		for _, p := range parts {
+			if p == k {
+				return a
+			}
+		}
+		parts = append(parts, k)
+		sort.Strings(parts)
+		return strings.Join(parts, ";")
+	}
+	edgeAtom := func(p, b *ssa.BasicBlock) string {
+		if len(p.Instrs) == 0 {
+			return ""
+		}
+		ifi, ok := p.Instrs[len(p.Instrs)-1].(*ssa.If)
+		if !ok || p.Succs[0] == p.Succs[1] {
+			return ""
+		}
+		cond, truth := ifi.Cond, p.Succs[0] == b
+		for {
+			u, ok := cond.(*ssa.UnOp)
+			if !ok || u.Op != token.NOT {
+				break
+			}
+			cond, truth = u.X, !truth
+		}
+		if _, ok := atoms[cond]; !ok {
+			return ""
+		}
+		if truth {
+			return cond.Name() + "=T"
+		}
+		return cond.Name() + "=F"
+	}
+	altsAt = func(b *ssa.BasicBlock) map[alt]bool {
+		if m, ok := memo[b]; ok {
+			return m
+		}
+		if onStack[b] {
+			return map[alt]bool{}
+		}
+		onStack[b] = true
+		out := map[alt]bool{}
+		if len(b.Preds) == 0 {
+			out[""] = true
+		}
+		for _, p := range b.Preds {
+			if b.Dominates(p) {
+				continue // back edge
+			}
+			k := edgeAtom(p, b)
+			for a := range altsAt(p) {
+				if k == "" {
+					out[a] = true
+				} else {
+					out[join(a, k)] = true
+				}
+			}
+		}
+		onStack[b] = false
+		memo[b] = out
+		return out
+	}
+	byName := map[string]atom{}
+	for v, a := range atoms {
+		byName[v.Name()] = a
+	}
+	consistent := func(a alt, m string) bool {
+		if a == "" {
+			return true
+		}
+		for _, part := range strings.Split(a, ";") {
+			name, truth := part[:len(part)-2], part[len(part)-1] == 'T'
+			if evalAtom(byName[name], m) != truth {
+				return false
+			}
+		}
+		return true
+	}
+	mentionsAtom := func(as map[alt]bool) bool {
+		for a := range as {
+			if a == "" {
+				return false
+			}
+		}
+		return len(as) > 0
+	}
+	// outcomes
+	type outcome struct {
+		desc string
+		alts map[alt]bool
+		pos  token.Pos
+	}
+	var outs []outcome
+	gapK, aminoK, nuclK := int64('-'), int64('X'), int64('N')
+	for nm, ptr := range map[string]*int64{"GAP": &gapK, "ALL_AMINO": &aminoK, "ALL_NUCLE": &nuclK} {
+		if v := constByName(c.P.Pkg("align"), nm); v != nil {
+			if k, ok := cInt(v); ok {
+				*ptr = k
+			}
+		}
+	}
+	for _, l := range leaves {
+		as := map[alt]bool{}
+		k := edgeAtom(l.pred, l.to)
+		for a := range altsAt(l.pred) {
+			if k != "" {
+				a = join(a, k)
+			}
+			as[a] = true
+		}
+		desc := "other"
+		if isModeByte(l.v) {
+			desc = "mode[0]"
+		} else if kk, ok := constInt(l.v); ok {
+			switch kk {
+			case gapK:
+				desc = "GAP"
+			case aminoK:
+				desc = "ALL_AMINO"
+			case nuclK:
+				desc = "ALL_NUCLE"
+			default:
+				desc = fmt.Sprintf("const %q", rune(kk))
+			}
+		}
+		pos := l.v.Pos()
+		if pos == token.NoPos {
+			pos = rep.Pos()
+		}
+		outs = append(outs, outcome{desc, as, pos})
+	}
+	for _, e := range returnEdges(fn) {
+		if e.kind != "err" || rep.Block().Dominates(e.block) {
+			continue
+		}
+		as := altsAt(e.block)
+		if !mentionsAtom(as) {
+			continue // an error that does not depend on the mode (argument checks before the dispatch)
+		}
+		outs = append(outs, outcome{"error", as, e.ret.Pos()})
+	}
+	// representatives
+	reps := []string{}
+	for l := range lits {
+		reps = append(reps, l)
+	}
+	one, long := "q", "qq"
+	for lits[one] {
+		one = string(rune(one[0] + 1))
+	}
+	for lits[long] {
+		long += "q"
+	}
+	reps = append(reps, one, long)
+	sort.Strings(reps)
+	reach := func(m string) []string {
+		set := map[string]bool{}
+		for _, o := range outs {
+			for a := range o.alts {
+				if consistent(a, m) {
+					set[o.desc] = true
+				}
+			}
+		}
+		var out []string
+		for k := range set {
+			out = append(out, k)
+		}
+		sort.Strings(out)
+		return out
+	}
+	want := func(m string) (string, func([]string) bool) {
+		eq := func(exp ...string) func([]string) bool {
+			sort.Strings(exp)
+			return func(got []string) bool { return strings.Join(got, ",") == strings.Join(exp, ",") }
+		}
+		switch {
+		case m == "GAP":
+			return "the GAP constant", eq("GAP")
+		case m == "AMBIG" || m == "":
+			return "the wildcard of the alignment's alphabet, an error for any other alphabet", eq("ALL_AMINO", "ALL_NUCLE", "error")
+		case m == "MAJ":
+			return "a constant placeholder (replaced per column by the most frequent character)", func(got []string) bool {
+				return len(got) == 1 && strings.HasPrefix(got[0], "const ")
+			}
+		case len(m) == 1 && !lits[m]:
+			return "the given byte mode[0]", eq("mode[0]")
+		case !lits[m]:
+			return "an error", eq("error")
+		}
+		return "", nil
+	}
+	for _, m := range reps {
+		got := reach(m)
+		name := fmt.Sprintf("mode %q", m)
+		if m == one {
+			name = "mode of one byte"
+		} else if m == long {
+			name = "mode of several bytes that is no keyword"
+		}
+		what, ok := want(m)
+		if ok == nil {
+			L.Unknown("replacement-dispatch", r.label, name, c.P.Pos(rep.Pos()), "the code compares the mode with a literal the documentation does not name")
+			continue
+		}
+		L.Check(ok(got), "replacement-dispatch", r.label, name, c.P.Pos(rep.Pos()), fmt.Sprintf("reaches {%s}: %s", strings.Join(got, ", "), what),
+			fmt.Sprintf("reaches {%s}, documented: %s", strings.Join(got, ", "), what))
+	}
+	for _, w := range []string{"GAP", "MAJ", "AMBIG", ""} {
+		if !lits[w] {
+			L.Bad("replacement-dispatch", r.label, fmt.Sprintf("mode %q", w), c.P.Pos(rep.Pos()), "documented mode is never compared with")
 		}
 	}
 }
